@@ -11,16 +11,12 @@ CFG = {
     "theorems": [
         "Swat4.C14.facts_config_wiring",
         "Swat4.C14.listed_iff_live",
-        "Swat4.C14.scan_selects_stale",
         "Swat4.C14.remove_refused_when_refreshed",
         "Swat4.C14.remove_erases_unchanged",
         "Swat4.C14.remove_other_key",
         "Swat4.C14.remove_keyed",
         "Swat4.C14.C14_race",
-        "Swat4.C14.guard_drops_refreshed",
         "Swat4.C14.C14_window",
-        "Swat4.C14.cleanServers2_shape",
-        "Swat4.C14.refreshed_not_scanned",
         "Swat4.C14.clean_instances_count",
         "Swat4.C14.clean_complete",
         "Swat4.C14.clean_complete2",
@@ -52,6 +48,14 @@ CFG = {
         "Swat4.CleanRace.removing_spares",
         "Swat4.C14.clean_removes_index_entries",
     ],
+    # proved in the Lean files and used by other proofs, but NOT audited as property theorems: each is a
+    # read-back of a definition, glue between two names, true by type, or a corollary of an audited theorem
+    "supporting": [
+        {"name": "Swat4.C14.scan_selects_stale", "why": "read-back of the definition (`AbsState.filter` / `FilterSet.pred` unfolded for `updatedBefore`; the pass-level statement is clean_complete)"},
+        {"name": "Swat4.C14.guard_drops_refreshed", "why": "read-back of the definition (membership in the `List.filter` that defines `guarded`)"},
+        {"name": "Swat4.C14.cleanServers2_shape", "why": "read-back of the definition (`rfl`)"},
+        {"name": "Swat4.C14.refreshed_not_scanned", "why": "read-back of the definition (`FilterSet.pred` unfolded, per-row hypothesis `t ≤ updatedAt` assumed; the statement without it is refreshed_not_scanned_inv)"},
+    ],
     "shards": (4, 16),
     "nontrivial": _nontrivial,
     "rule": "(seq) histories of 3..20 real use-case executions over 4 servers (report, keepalive, probe success/failure, list with the master "
@@ -80,9 +84,9 @@ CFG = {
     ],
     "manifest": {
         "text": "Lean theorems: listed_iff_live (a listing is exactly status AND refreshedAt >= now - liveness, with no dependence on cleanup), "
-                "scan_selects_stale (the pass scans exactly updatedAt < cutoff), C14_race (for every list of scanned copies, a server whose stored "
+                "C14_race (for every list of scanned copies, a server whose stored "
                 "record is newer than the scanned copy and refreshed after the cutoff is still stored unchanged after the whole pass — the refresh may "
-                "commit between scan and delete), C14_window (a refresh committing between the scan's index read and its record fetch: the repaired guard drops the fetched copy), refreshed_not_scanned (a refresh before the scan keeps it out of the scan), remove_erases_unchanged, "
+                "commit between scan and delete), C14_window (a refresh committing between the scan's index read and its record fetch: the repaired guard drops the fetched copy), refreshed_not_scanned_inv (a refresh before the scan keeps it out of the scan), remove_erases_unchanged, "
                 "clean_instances_count; clean_complete / clean_complete2 (a pass — atomic form, and the scan/fetch/delete form the driver runs — removes exactly the rows with "
                 "updatedAt < now - retention, leaves every other row and the instances and queue unchanged and reports their number), clean_instances_state (which instances remain), "
                 "refLeUpd_preserved (refreshedAt <= updatedAt is an invariant of every use case, complete runs and every crash/fault prefix, on a monotone clock), "
